@@ -48,7 +48,7 @@ def check(run, tier, seed, replay=None):
     if replay and not set_replay:
         return
     osc = [rsc] if set_replay else orphan_sets(seed, 120 if tier == "quick" else 1500) + going_sets(seed, 150 if tier == "quick" else 2000)
-    res = sl.run_cases(run, osc, "judge05s", 2, "From PKOCorr Require Import SetMonitors.")
+    res = sl.run_cases(run, osc, "judge05sg", 2, "From PKOCorr Require Import SetMonitors SetJudges.")
     run.cov["evaluations"] += len(res)
     for sc, obs, r in res:
         if r is None:
